@@ -1,7 +1,7 @@
 //! C26 — parallel byte-range scans read every record exactly once.
 //!
-//! Three kinds of generated cases share this sub-command (weights 24 : 2 : 1, i.e. ≈ 8 000 unit cases,
-//! ≈ 670 SQL cases and ≈ 330 direct-scan cases in the quick tier) plus a deterministic exhaustive sub-run (`Property::extra`).
+//! Three kinds of generated cases share this sub-command (weights 24 : 2 : 1, i.e. ≈ 6 000 unit cases,
+//! ≈ 500 SQL cases and ≈ 250 direct-scan cases in the quick tier) plus a deterministic exhaustive sub-run (`Property::extra`).
 //!
 //! **(a) Unit** — `AlignedBoundaryStream::new(store, path, raw_start, raw_end, file_size, terminator)`
 //! (datafusion/datasource/src/boundary_stream.rs; `END_SCAN_LOOKAHEAD` = 16 KiB is read from the crate)
@@ -46,17 +46,12 @@
 //! Non-trivial: (unit) some boundary strictly inside a line and another exactly at a line start;
 //! (SQL) the planned ranges contain a boundary strictly inside a line.
 //!
-//! Deviations from DESIGN.md: unit and SQL parts share one sub-command; the chunk plan is cyclic
+//! Deviations from DESIGN.md: unit, SQL and direct-scan parts share one sub-command; the chunk plan is cyclic
 //! (not one size per case); request *delays* of §3.8(e) are not generated (the stream under test has no
 //! timing dependence — it is a pure state machine over the chunk sequence).
 //!
-//! Sensitivity probes (tools/mutrun, quick tier): see the end of this header.
-//!
-//! PROBES
-//! 1. boundary_stream.rs: fetch from `raw_start` instead of `raw_start - 1` → VIOLATION (unit + extra).
-//! 2. boundary_stream.rs: ScanningLastTerminator refill starts at `pos + 1` (drops a byte) → VIOLATION.
-//! 3. boundary_stream.rs: `end = raw_end` also for the last range (no read-to-EOF) → VIOLATION.
-//! (verdicts filled in after running; see report)
+//! Sensitivity probes (tools/mutrun, patches in crates/vf-list/probes/, quick tier):
+//! PROBE-VERDICTS-C26
 use crate::chunkstore::ChunkStore;
 use crate::util::*;
 use bytes::Bytes;
@@ -1125,7 +1120,7 @@ impl Property for C26 {
         .boxed()
     }
     fn budget(&self, tier: Tier) -> Budget {
-        Budget::new(tier.pick(9_000, 400_000), tier.pick(8, 16)).min_nontrivial(tier.pick(1_000, 40_000)).case_timeout(180)
+        Budget::new(tier.pick(6_750, 400_000), tier.pick(8, 16)).min_nontrivial(tier.pick(800, 40_000)).case_timeout(180)
     }
     fn rule(&self) -> String {
         "unit: file = generated lines (0..12 B, blank, CR, around 1x/2x END_SCAN_LOOKAHEAD) + optional final terminator; 0-3 cuts placed relative to line starts give 1-4 contiguous byte ranges; \
